@@ -74,14 +74,17 @@ def piece(rng, depth=0):
         for _ in range(rng.randrange(0, 4)):
             k = rng.random()
             ind = rng.choice(["", " ", "  ", "\t"])
+            # the gap between the inner tag's name and its expression is one or several blanks (seed C20-I: expression offset
+            # computed as name end + 1)
+            gap = rng.choice([" ", " ", "  ", "\t", " \t ", "   "])
             if k < 0.35:
-                lines.append(ind + "assign lq" + str(rng.randrange(2)) + " = " + expr(rng).replace("\n", " "))
+                lines.append(ind + "assign" + gap + "lq" + str(rng.randrange(2)) + " = " + expr(rng).replace("\n", " "))
             elif k < 0.7:
-                lines.append(ind + "echo " + expr(rng).replace("\n", " "))
+                lines.append(ind + "echo" + gap + expr(rng).replace("\n", " "))
             elif k < 0.8:
                 lines.append(ind + "# note " + rng.choice(VARS))
             elif k < 0.9:
-                lines.append(ind + "increment cnt")
+                lines.append(ind + "increment" + gap + "cnt")
             else:
                 lines.append("")
         # lines of a liquid tag end in LF or (one tag in three) CRLF: offsets of the inner tokens must count the carriage returns
